@@ -135,6 +135,11 @@ def main():
     # ---- (4) correspondence + monitors ----------------------------------------------------
     rng = random.Random(common.seed_for(seed, prop, tier))
     cases = list(spec['cases'](rng, tier))
+    if spec.get('big'):
+        # evaluate every ordinary case with the verified big-step evaluator as well (see corr.run_case)
+        for c in cases:
+            if c.mode == 'main' and not c.skip_model and c.fuel <= 3_000_000:
+                c.big = True
     recs = corr.run_cases(cases)
     stats = collections.Counter(r['status'] for r in recs)
     kinds = collections.Counter((r.get('impl_kind'), r.get('model_kind')) for r in recs)
@@ -219,6 +224,11 @@ def main():
             'evaluations': len(recs), 'distinct_nontrivial': nontrivial,
             'rule': spec['rule'], 'samples': samples,
             'traces_validated_against_impl': stats.get('agree', 0),
+            'bigstep_evaluator': {'cases': sum(1 for r in recs if 'big_kind' in r),
+                                  'returned_a_result': sum(1 for r in recs if r.get('big_kind') in ('ok', 'err', 'limit')),
+                                  'out_of_fuel_or_unmodelled': sum(1 for r in recs if r.get('big_kind') in ('fuel', 'unmodelled')),
+                                  'max_height': max([r.get('big_height', 0) for r in recs] or [0]),
+                                  'note': 'cases also evaluated by the verified executable big-step evaluator evalF (driver main2); every result witnesses a derivation of BigStep.Eval and must equal the implementation'},
             'status_counts': dict(stats), 'outcome_kinds': {f"{a}/{b}": n for (a, b), n in kinds.items()},
             'error_values_seen': dict(errs.most_common(12)), 'skipped_unmodelled': dict(skips.most_common(10)),
             'tags': dict(tags.most_common(30)), 'lean': lean_info, 'notes': notes,
